@@ -53,8 +53,17 @@ Triple == {[id |-> "three-" \o ToString(a) \o "-" \o ToString(b) \o "-" \o ToStr
           ref |-> SubSeq(RefPat, 1, 8),
           recs |-> <<MRec(0, 0, a, 0), MRec(0, 2048, b, 0), MRec(0, 2064, c, 0)>>,
           runs |-> Runs(a * 37 + b * 101 + c * 13)] : a \in {1, 8, 10}, b \in {3, 7, 9, 11}, c \in {5, 6, 2}}
+(* every window of an 8-base reference x every wrap width up to (and beyond) the width of the windowed row, for both commands *)
+WWRuns(s, e) ==
+  LET n == e - s + 4 IN
+  [k \in 1..(4 * n) |-> LET w == ((k - 1) \div 4) + 1  var == (k - 1) % 4 IN
+     CASE var = 0 -> Run("toma", FALSE, s, e, w, 1, FALSE, FALSE) [] var = 1 -> Run("toma", TRUE, s, e, w, 2, FALSE, FALSE)
+       [] var = 2 -> Run("topa", FALSE, s, e, w, 1, FALSE, FALSE) [] var = 3 -> Run("topa", FALSE, s, e, w, 1, TRUE, TRUE)]
+WrapWin == UNION {{[id |-> "wrapwin-" \o ToString(s) \o "-" \o ToString(e) \o "-" \o ToString(ab[1]), ref |-> SubSeq(RefPat, 1, 8),
+                     recs |-> <<MRec(0, 0, ab[1], 0), MRec(0, 2048, ab[2], 3), MRec(1, 0, 2, 1)>>, runs |-> WWRuns(s, e)]
+                    : e \in s..8, ab \in {<<3, 6>>, <<1, 5>>}} : s \in 1..8}
 VARIABLE v
-Init == v \in SingleFit \cup Pair \cup Triple
+Init == v \in SingleFit \cup Pair \cup Triple \cup WrapWin
 Next == UNCHANGED v
 EmitInv == EmitVec(v)
 =============================================================================
